@@ -47,8 +47,9 @@
 (*     or one is a clear) arrive in the order written;                     *)
 (*  C3 a command is missing at quiescence only if superseded, so the lane  *)
 (*     ends as if all were sent: for every key the last command on the     *)
-(*     socket affecting it is not older (happens-before) than any other    *)
-(*     written command affecting it.                                       *)
+(*     socket affecting it is not OLDER than any other written command     *)
+(*     affecting it (older = written earlier by the same consumer, or      *)
+(*     already read by the lane when the other was written).               *)
 (* P does NOT constrain: how many sync frames are sent, batching, order    *)
 (* between consumers, order between commands of different consumers that   *)
 (* were written concurrently, what a consumer reads before synced (beyond  *)
@@ -99,7 +100,7 @@ PInit(kind, enabled) ==
      closed  |-> "no",          \* "no" | "unlinked" | "stop"
      cpos    |-> 0,             \* Len(N) when the lane sent unlinked
      cons    |-> <<>>,          \* sequence of consumer records (index = order of attach)
-     cmds    |-> <<>>,          \* commands written: [c, op, ep]
+     cmds    |-> <<>>,          \* commands written: [c, op, gl = commands the lane had read by then]
      got     |-> <<>>,          \* command ops read by the lane, in order
      syncs   |-> 0,             \* sync frames read by the lane
      links   |-> 0]
@@ -130,9 +131,11 @@ Registered(x) == (x.ph = "synced") \/ (x.ph = "linked" /\ ~x.sync /\ x.mode = "n
 (* environment events                                                      *)
 
 OnAttach(p, e) ==
-    LET mids == \E i \in 1..Len(p.cons) : p.cons[i].sync /\ p.cons[i].ph \in {"att", "linked"}
+    \* a sync asked for by an earlier consumer (even one that has dropped since) is still outstanding
+    LET mids == \E i \in 1..Len(p.cons) : p.cons[i].sync /\ ~p.cons[i].sy /\ p.cons[i].ph # "never"
         x == [c |-> e.c, sync |-> e.sync, ph |-> "att", pos |-> {}, view |-> {}, aep |-> p.ep,
               mids |-> mids, mode |-> "norm", lpos |-> 0, nev |-> 0,
+              sy |-> FALSE,         \* has read synced
               dpos |-> {}]          \* candidate positions if the F10c deviation was taken at synced
     IN IF CIdx(p, e.c) # 0 THEN Fail(p, "harness: consumer attached twice")
        ELSE [p EXCEPT !.cons = Append(@, x)]
@@ -141,7 +144,7 @@ OnAttachFail(p, e) ==
     LET i == CIdx(p, e.c) IN
     IF i = 0 THEN p ELSE [p EXCEPT !.cons[i].ph = "never"]
 
-OnCSend(p, e) == [p EXCEPT !.cmds = Append(@, [c |-> e.c, op |-> e.op, ep |-> p.ep])]
+OnCSend(p, e) == [p EXCEPT !.cmds = Append(@, [c |-> e.c, op |-> e.op, gl |-> Len(p.got)])]
 
 OnCDrop(p, e) ==
     LET i == CIdx(p, e.c) IN
@@ -219,8 +222,9 @@ OnSynced(p, i) ==
     ELSE IF ~SyncedSent(p) THEN Fail(p, "S4: synced before the lane sent synced")
     ELSE IF ~x.sync /\ x.mode = "norm" THEN p                        \* not asked for: tolerated no-op
     ELSE IF cuts # {} THEN [p EXCEPT !.cons[i].ph = "synced", !.cons[i].pos = cuts, !.cons[i].mode = "norm",
+                                     !.cons[i].sy = TRUE,
                                      !.cons[i].dpos = IF f10c THEN x.pos ELSE {}]
-    ELSE IF f10c THEN Deviate([p EXCEPT !.cons[i].ph = "synced"], "F10c")
+    ELSE IF f10c THEN Deviate([p EXCEPT !.cons[i].ph = "synced", !.cons[i].sy = TRUE], "F10c")
     ELSE Fail(p, "S4: synced while holding a state the lane never had")
 
 \* everything the lane sent up to position `upto` has been read by a registered consumer
@@ -291,7 +295,11 @@ CheckSessions(p) ==
 -----------------------------------------------------------------------------
 (* quiescence: commands                                                    *)
 
-HB(p, a, b) == (p.cmds[a].c = p.cmds[b].c /\ a < b) \/ p.cmds[a].ep < p.cmds[b].ep
+\* command a is older than command b: written earlier by the same consumer, or already read by
+\* the lane when b was written.  (Nothing else orders commands of different consumers: a
+\* command may wait in its consumer's channel while the runtime takes another consumer's.)
+HB(p, f, a, b) == \/ p.cmds[a].c = p.cmds[b].c /\ a < b
+                  \/ \E i \in 1..Len(p.got) : f[i] = a /\ i <= p.cmds[b].gl
 
 Dropped(p, c) == LET i == CIdx(p, c) IN i # 0 /\ p.cons[i].ph \in {"dropped", "never"}
 
@@ -318,7 +326,7 @@ Stale(p, f, key) ==
         gk == {i \in 1..Len(p.got) : Affects(p.got[i], key)}
     IN IF want = {} THEN {}
        ELSE IF gk = {} THEN want
-       ELSE LET l == f[Max(gk)] IN {j \in want : j # l /\ HB(p, l, j)}
+       ELSE LET l == f[Max(gk)] IN {j \in want : j # l /\ HB(p, f, l, j)}
 
 FinalOK(p, f) == \A key \in CmdKeys(p) : Stale(p, f, key) = {}
 
@@ -328,7 +336,7 @@ IsF10a(p, f) ==
     /\ "F10a" \in p.enabled /\ p.kind = "value"
     /\ \A key \in CmdKeys(p) :
          LET st == Stale(p, f, key) IN
-         \A j \in st : p.cmds[j].op.v = "" \/ \E j2 \in st : HB(p, j, j2)
+         \A j \in st : p.cmds[j].op.v = "" \/ \E j2 \in st : HB(p, f, j, j2)
 
 CheckCommands(p) ==
     LET M == Matchings(p) IN
